@@ -3,6 +3,7 @@ package props
 import (
 	"bytes"
 	"fmt"
+	"path/filepath"
 	"strings"
 
 	slug "github.com/hashicorp/go-slug"
@@ -41,6 +42,21 @@ func runRoundTrip(which string, env *fw.Env, c rtCase) fw.Result {
 	S, err := mon.ReadTree(src)
 	if err != nil {
 		return fw.Result{Verdict: fw.Inconclusive, Msg: "read source: " + err.Error(), Case: res.Case}
+	}
+	// C02 is about links that stay inside the tree. A link that stays inside
+	// as written but is led outside by another link on the way ("a -> ../.."
+	// with "b -> a/../x") is not in that universe; it belongs to C05.
+	if which == "C02" {
+		for p, n := range S {
+			if n.Kind != "link" {
+				continue
+			}
+			if r, loop := mon.Resolve(filepath.Join(src, p)); !loop && !mon.Within(src, r) {
+				res.Class = "outside-universe:link-leaves-tree-through-another-link"
+				res.NonTrivial = false
+				return res
+			}
+		}
 	}
 	obs := doPack(src, c.Opts)
 	if obs.Panic != "" {
